@@ -627,6 +627,34 @@ fn judge_arc3(case: &Case, l: &mut Local) {
     judge_aabb(&arc, &mk, "three-point", l);
 }
 
+/// Triangles with two very unequal sides meeting at a small angle (a long chord and a short one from the same
+/// point): in general position, so a circle passes through them. `k` = angle index, `dir` = length pair.
+fn judge_thin3(case: &Case, l: &mut Local) {
+    let mk = || serde_json::to_value(case).unwrap();
+    let theta: f64 = [5e-4, 3e-3, 0.05, 0.7][case.k % 4];
+    let (long, short) = [(1000.0, 1e-3), (1000.0, 1.0), (1.0, 1e-3), (50.0, 0.02)][case.dir % 4];
+    let off = offsets()[case.off % 2];
+    let p1 = Point2::origin() + off;
+    let p0 = p1 + Vector2::new(long, 0.0);
+    let p2 = p1 + Vector2::new(short * theta.cos(), short * theta.sin());
+    l.eval();
+    l.bucket("thin triangle with very unequal sides");
+    match guarded(|| Circle2::from_3_points(p0, p1, p2)) {
+        Ok(Ok(c)) => {
+            // the points are compared with the circle relative to its (large) radius
+            let worst = [p0, p1, p2].iter().map(|q| c.distance_to(q).abs()).fold(0.0, f64::max);
+            l.outcome(hash_of(&(case.k, case.dir, 23u8)));
+            l.check("three-point circle passes through its points", "thin", worst <= 1e-9 * (c.r() + long + off.norm()), mk, || format!("sides {} and {} at {} rad: off by {:e} (radius {:e})", long, short, theta, worst, c.r()));
+        }
+        Ok(Err(e)) => {
+            l.check("non-collinear points give a circle", "thin", false, mk, || format!("sides {} and {} at {} rad: {}", long, short, theta, e));
+        }
+        Err(m) => {
+            l.check("three-point circle returns", "panic", false, mk, || m.clone());
+        }
+    }
+}
+
 pub fn judge(case: &Case, l: &mut Local) {
     l.distinct(hash_of(&serde_json::to_string(case).unwrap()));
     if case.dir == 3 && case.k == 3 {
@@ -641,6 +669,7 @@ pub fn judge(case: &Case, l: &mut Local) {
         "segexact" => judge_segment_exact(case, l),
         "arc" => judge_arc(case, l),
         "arc3" => judge_arc3(case, l),
+        "thin3" => judge_thin3(case, l),
         _ => {}
     }
 }
@@ -697,6 +726,13 @@ pub fn cases(tier: Tier) -> Vec<Case> {
                 for k in 0..SWEEPS.len() {
                     out.push(Case { r0: r, k, dir, off, ..base("arc") });
                 }
+            }
+        }
+    }
+    for k in 0..4 {
+        for dir in 0..4 {
+            for off in 0..2 {
+                out.push(Case { k, dir, off, ..base("thin3") });
             }
         }
     }
